@@ -37,4 +37,60 @@ let dispatch (cmd : string) (rest : string list) : string =
      | first :: rest ->
        let (w, trace) = emd_run fops eta total x0 first rest in
        String.concat " " (List.map (Printf.sprintf "%h") (w @ List.concat trace)))
+  | "hps" | "gbp" ->
+    (* <total> <rho> <sweeps> <calls> <nreg> then per region: <k attrs: (attr size)*> <parents> <children> <pot values> ... *)
+    let total = rf () in let rho = rf () in let sweeps = ri () in let calls = ri () in let n = ri () in
+    let rnl () = let k = ri () in List.init k (fun _ -> nat_of_int (ri ())) in
+    let regs = Array.init n (fun _ ->
+      let k = ri () in
+      let dom = List.init k (fun _ -> let a = nat_of_int (ri ()) in let s = nat_of_int (ri ()) in (a, s)) in
+      let pa = rnl () in let ch = rnl () in
+      let sz = List.fold_left (fun acc (_, s) -> acc * (let rec f = function O -> 0 | S m -> 1 + f m in f s)) 1 dom in
+      let vals = List.init sz (fun _ -> rf ()) in
+      (dom, pa, ch, vals)) in
+    let geti c = let rec f = function O -> 0 | S m -> 1 + f m in f c in
+    let get c = let i = geti c in if i < n then Some regs.(i) else None in
+    let zero_of c = match get c with Some (dom, _, _, vals) -> { fdom = dom; fvals = List.map (fun _ -> 0.0) vals } | None -> { fdom = []; fvals = [0.0] } in
+    let g = { nreg = nat_of_int n;
+              rscope = (fun c -> match get c with Some (dom, _, _, _) -> List.map fst dom | None -> []);
+              rparents = (fun c -> match get c with Some (_, pa, _, _) -> pa | None -> []);
+              rchildren = (fun c -> match get c with Some (_, _, ch, _) -> ch | None -> []);
+              rpot = (fun c -> match get c with Some (dom, _, _, vals) -> { fdom = dom; fvals = vals } | None -> { fdom = []; fvals = [0.0] });
+              rzero = zero_of } in
+    let redge () = let a = nat_of_int (ri ()) in let b = nat_of_int (ri ()) in (a, b) in
+    let rel () = let k = ri () in List.init k (fun _ -> redge ()) in
+    let outf l = String.concat " " (List.map (fun f -> String.concat " " (List.map (Printf.sprintf "%h") f.fvals)) l) in
+    if cmd = "hps" then begin
+      (* messages persist between calls: `calls` consecutive runs of `sweeps` sweeps; beliefs after the last *)
+      let m = ref [] in let res = ref [] in
+      for _ = 1 to calls do let (m', b) = hps_run fops g rho total (nat_of_int sweeps) !m in m := m'; res := b done;
+      outf !res
+    end else begin
+      let order = rel () in
+      let nl = List.map (fun e -> (e, rel ())) order in
+      let dl = List.map (fun e -> (e, rel ())) order in
+      let bl = List.init n (fun i -> (i, rel ())) in
+      let cliques = rnl () in
+      let eq (a, b) (c, d) = geti a = geti c && geti b = geti d in
+      let find l e = try snd (List.find (fun (e', _) -> eq e e') l) with Not_found -> [] in
+      let bfind r = try snd (List.find (fun (i, _) -> i = geti r) bl) with Not_found -> [] in
+      let m0 = List.map (fun e -> (e, zero_of (snd e))) order in
+      let (_, b) = gbp_run fops g order (find nl) (find dl) bfind total (nat_of_int sweeps) cliques m0 in
+      outf b
+    end
+  | "lbp" ->
+    let total = rf () in let sweeps = ri () in let ncl = ri () in
+    let cls = Array.init ncl (fun _ ->
+      let k = ri () in
+      let dom = List.init k (fun _ -> let a = nat_of_int (ri ()) in let s = nat_of_int (ri ()) in (a, s)) in
+      let sz = List.fold_left (fun acc (_, s) -> acc * (let rec f = function O -> 0 | S m -> 1 + f m in f s)) 1 dom in
+      (dom, List.init sz (fun _ -> rf ()))) in
+    let na = ri () in
+    let ats = List.init na (fun _ -> let a = ri () in let s = ri () in (a, s)) in
+    let geti c = let rec f = function O -> 0 | S m -> 1 + f m in f c in
+    let cscope c = let i = geti c in if i < ncl then List.map fst (fst cls.(i)) else [] in
+    let cpot c = let i = geti c in if i < ncl then { fdom = fst cls.(i); fvals = snd cls.(i) } else { fdom = []; fvals = [0.0] } in
+    let vzero v = let i = geti v in let s = try List.assoc i ats with Not_found -> 1 in { fdom = [(v, nat_of_int s)]; fvals = List.init s (fun _ -> 0.0) } in
+    let b = lbp_run fops (nat_of_int ncl) cscope cpot vzero total (nat_of_int sweeps) in
+    String.concat " " (List.map (fun f -> String.concat " " (List.map (Printf.sprintf "%h") f.fvals)) b)
   | _ -> failwith ("unknown command " ^ cmd)
